@@ -56,6 +56,7 @@ Layout(h) == Layouts[((h \div 4) % 8) + 1]
 \* tolerance as a fraction: 10^-9 (never met by a non-zero move), or 1/2, 3/2 (l2 only: the documented
 \* criterion is the euclidean distance between old and new centroids) which stop the iteration early
 Tiny == <<1, 1000000000>>
+Huge == <<"4294967296", "4294967297", "4294967298", "18446744073709551615">>   \* 2^32, 2^32+1, 2^32+2, 2^64-1
 TolSet(f, n, v, h) ==
   IF v[2] # "l2" THEN {Tiny}
   ELSE IF n = 1 /\ v = <<"f64", "l2", "owned">> THEN {Tiny, <<1, 2>>, <<3, 2>>}
@@ -82,6 +83,8 @@ Traj ==
                         qs |-> Queries(f, g), ms |-> [m \in 1..(IF n <= DeepN /\ v[2] # "lp3" THEN MaxB + 1 ELSE MaxB) |-> m],
                         \* restarts from the same precomputed centroids: n_runs must not change anything
                         nruns |-> <<1, 2, 1, 3>>[((Check(pts, c0) \div 32) % 4) + 1],
+                        \* budgets of 2^32 and more where the tolerance ends the run after a few iterations
+                        hms |-> IF tol # Tiny THEN Huge ELSE <<>>,
                         tol |-> tol]]
 
 Restart ==
